@@ -341,9 +341,9 @@ def main(ctx):
                 "dictionaries incl. invalid values; a case = one workload "
                 "tree; the monitor fires only after a TransformationError; "
                 "distinct by source text / (api, file, dm)")
-    nb = 28 if ctx.quick else 120
-    jobs = [{"seed": ctx.rng("g", i).random(), "count": 3 if ctx.quick else 8,
-             "attempts": 250 if ctx.quick else 600} for i in range(nb)]
+    nb = 16 if ctx.quick else 120
+    jobs = [{"seed": ctx.rng("g", i).random(), "count": 2 if ctx.quick else 8,
+             "attempts": 110 if ctx.quick else 600} for i in range(nb)]
     sites = set()
     ncls = 0
     for res in ctx.pmap("vf.checks.c26", "generic_batch", jobs, timeout=3400):
@@ -355,7 +355,7 @@ def main(ctx):
     for i, f in enumerate(PSYKAL):
         for r in range(1 if ctx.quick else 4):
             pj.append({"seed": ctx.rng("p", i, r).random(), "files": [f],
-                       "attempts": 300 if ctx.quick else 800})
+                       "attempts": 90 if ctx.quick else 800})
     for res in ctx.pmap("vf.checks.c26", "psykal_batch", pj, timeout=3400):
         if res:
             sites |= set(res.pop("sites", []))
